@@ -26,12 +26,20 @@ def S(g, k, n, f, a=None):
     return "S:%s:%s:%s:%s" % (g, k, hx(n), f) + ("" if a is None else ":" + hx(a))
 
 
+def H(kind, g, k, n, f=None, a=None):
+    """HD (through a held group&) / HS (through a held option&)"""
+    return "%s:%s:%s:%s" % (kind, g, k, hx(n)) + ("" if f is None else ":" + f) + ("" if a is None else ":" + hx(a))
+
+
 def small_alphabet():
     """22 operations: two names, two groups, all kinds, one letter pair, a move, a parse"""
     ops = [D(g, k, n) for g in ("*", hx("g1")) for k in KINDS for n in ("a", "b")]          # 12
     ops += [S(g, k, "a", "s", "x") for g in ("*", hx("g1")) for k in "ot"]                  # 4
     ops += [S("*", "t", "b", "s", "x"), S("*", "o", "b", "s", "a"), S("*", "o", "a", "s", "ab")]  # 3
     ops += ["G:" + hx("g1"), "MC", "P"]                                                     # 3
+    # references held by the caller: they bypass parser::group()
+    ops += [H("HS", "*", "t", "a", "s", "x"), H("HS", "*", "t", "b", "s", "x"), H("HS", hx("g1"), "o", "a", "s", "x"),
+            H("HD", "*", "t", "b", "s", "x"), H("HD", hx("g1"), "t", "b", "s", "x"), H("HD", hx("g1"), "o", "a")]   # 6
     return ops
 
 
@@ -42,6 +50,10 @@ def large_alphabet():
     ops += [S("*", k, "a", "e", e) for k in "ot" for e in ENVS]                             # 6
     ops += [S("*", "m", "a", "m", m) for m in METAVARS] + [S("*", k, "a", "d") for k in KINDS]  # 6
     ops += ["G:" + g for g in (hx("g1"), hx("g2"), hx("__default"))] + MOVES + ["P"]        # 7
+    ops += [H("HS", g, k, "a", "s", c) for g in ("*", hx("g1")) for k in "ot" for c in ("a", "x")]          # 8
+    ops += [H("HS", "*", "o", "a", "d"), H("HS", "*", "t", "b", "s", "x")]                                   # 2
+    ops += [H("HD", g, k, n) for g in ("*", hx("g1")) for k in "ot" for n in ("a", "b")]                    # 8
+    ops += [H("HD", g, "t", "b", "s", "x") for g in ("*", hx("g1"), hx("g2"))]                              # 3
     return ops
 
 
@@ -56,6 +68,14 @@ def random_op(rng, hist):
         # same triple, or change exactly one coordinate
         c = rng.randrange(4)
         g, k, n = (g0, k0, n0) if c == 0 else (g, k0, n0) if c == 1 else (g0, k, n0) if c == 2 else (g0, k0, n)
+    if hist and rng.random() < 0.25:
+        # through a held reference: mostly to something handed out before
+        f = rng.choice(["s", "s", "s", "e", "m", "d"])
+        a = None if f == "d" else (rng.choice(LETTERS + BADLETTERS[:1]) if f == "s" else rng.choice(ENVS) if f == "e" else rng.choice(METAVARS))
+        if rng.random() < 0.5:
+            return H("HS", g, k, n, f, a)
+        hist.append((g, k, n))
+        return H("HD", g, k, n, f, a) if rng.random() < 0.6 else H("HD", g, k, n)
     if r < 0.40:
         hist.append((g, k, n))
         return D(g, k, n)
@@ -73,7 +93,7 @@ def random_op(rng, hist):
         return S(g, k, n, "d")
     if r < 0.90:
         return "G:" + (rng.choice(GROUPS[1:]) if rng.random() < 0.8 else rng.choice(ODDGROUPS))
-    if r < 0.97:
+    if r < 0.95:
         return rng.choice(MOVES)
     return "P"
 
@@ -91,13 +111,14 @@ class C13(Check):
                  "and a flat-list specification, invariant names-unique) + extraction-based differential test against the C++ under ASan/UBSan "
                  "with the parser object really moved and its source destroyed")
     level_text = ("Theorems for ALL sequences of declaration calls (option/multi_option/toggle on the parser or on named groups, "
-                  "short_name/env/metavar/default setters, group(), moves and parses interleaved), proved over a Gallina model that follows "
+                  "short_name/env/metavar/default setters, group(), the same through group&/option& references obtained earlier, moves and "
+                  "parses interleaved), proved over a Gallina model that follows "
                   "group::option/multi_option/toggle, parser::group/has_option_with_name/get_all_*/check_parser_consistency and "
                   "crtp_base::short_name/env/metavar: a long name is declared at most once across groups and kinds; the same (group, kind, name) "
                   "returns the identical object and changes nothing; any other re-declaration is the developer error and adds nothing; "
                   "short names must be one character and cannot change; parse is refused with the developer error exactly when two declared "
                   "objects share a letter; in every parser that is not refused each name and each letter reaches at most one object, namely "
-                  "the one declared with it; a move is the identity; the whole observable behaviour of the model equals a flat one-list "
+                  "the one declared with it; a move is the identity; an operation through a held reference is the operation by name; the whole observable behaviour of the model equals a flat one-list "
                   "specification. The model is tied to /repo by running it and the real parser on the same operation sequences "
                   "(exhaustive to a depth bound + random) and diffing per-call outcomes, object identities, the final parse, probe parses "
                   "per name and letter, usage() order and the settings read back")
@@ -112,8 +133,11 @@ class C13(Check):
                   "Names that cannot be spelled (empty, containing '=', starting with '-') are out of scope of the probes; "
                   "allow_reverse()/optional() are not operations of the model")
     rule = ("operation sequences over 3 names x 3 letters (+ malformed short names) x 3 groups (+ \"__default\" and \"\") x 3 kinds: "
-            "exhaustive to depth 2 over a 73-operation alphabet and depth 3 over a 22-operation alphabet (thorough: depth 3 and 4), every "
-            "depth-2 sequence again with a move at every position, plus random sequences of <= 6 operations from VERIF_SEED aimed at earlier "
+            "plus operations through references the caller holds (HD: declaration through a group& handed out earlier, HS: setter through "
+            "an option& handed out earlier; neither calls parser::group() again): "
+            "exhaustive to depth 2 over a 94-operation alphabet and depth 3 over a 28-operation alphabet (thorough: depth 3 and 4), every "
+            "depth-2 sequence again with a move at every position, a directed stream 'declare, parse, clash through a held reference, "
+            "parse' over kinds x groups with a move (or none) at every gap, plus random sequences of <= 6 operations from VERIF_SEED aimed at earlier "
             "declarations (same triple or one coordinate changed); non-trivial = the case has a collision: a developer error, an identity "
             "returned twice, or a refused parse; distinct = distinct case line")
     modelled_note = ("modelled, not verified: C++ object lifetime and move semantics (std::map node stability, the re-pointed group::parser_), "
@@ -137,6 +161,22 @@ class C13(Check):
             yield " ".join([m, a, b]), "move-pos"
             yield " ".join([a, m, b]), "move-pos"
             yield " ".join([a, b, m]), "move-pos"
+        # references obtained BEFORE a successful parse, a clash introduced through them afterwards, parse again;
+        # a parser move (or none) at every gap; the first object's letter is set fluently or through its handle too
+        for g1, g2 in itertools.product(("*", hx("g1")), repeat=2):
+            for k1, k2 in itertools.product(KINDS, repeat=2):
+                first = [S(g1, k1, "a", "s", "x")] + ([S(g1, k1, "a", "d")] if k1 != "t" else [])
+                second = [D(g2, k2, "b")] + ([S(g2, k2, "b", "d")] if k2 != "t" else [])
+                clashes = [[H("HS", g2, k2, "b", "s", "x")],
+                           [H("HD", g2, k2, "b", "s", "x")],
+                           [H("HD", g2, "t", "no-a", "s", "x")],
+                           [H("HS", g2, k2, "b", "s", "a"), H("HS", g2, k2, "b", "s", "x")]]   # no clash, then refused change
+                for cl in clashes:
+                    for m1, m2, m3 in itertools.product([None] + MOVES[:2], [None] + MOVES, [None, "MS"]):
+                        seq = first + second + ([m1] if m1 else []) + ["P"] + ([m2] if m2 else []) + cl + ([m3] if m3 else []) + ["P"]
+                        yield " ".join(seq), "held-after-parse"
+                        # the same with the clash before the first parse, and with the fluent form after it
+                        yield " ".join(first + second + cl + ([m2] if m2 else []) + ["P"]), "held-before-parse"
         if tier == "thorough":
             for t in itertools.product(large, repeat=3):
                 yield " ".join(t), "exh-large-3"
@@ -161,7 +201,7 @@ class C13(Check):
     def signature(self, case, mobs, iobs):
         head = iobs.split(";")[0].split()
         kinds = tuple(w.rstrip("0123456789") for w in head)
-        ops = tuple(w.split(":")[0] + (w.split(":")[4] if w.startswith("S:") else "") for w in case.split())
+        ops = tuple(w.split(":")[0] + (w.split(":")[4] if w.count(":") >= 4 else "") for w in case.split())
         return (ops, kinds, "F=DEV" in iobs, "K1" in iobs)
 
     def shrink(self, case):
@@ -173,6 +213,8 @@ class C13(Check):
         for i, x in enumerate(w):
             if x.startswith("S:"):
                 yield " ".join(w[:i] + ["D:" + ":".join(x.split(":")[1:4])] + w[i + 1:])
+            if x.startswith("HD:") and x.count(":") >= 4:
+                yield " ".join(w[:i] + ["HD:" + ":".join(x.split(":")[1:4])] + w[i + 1:])
 
 
 CHECK = C13
